@@ -22,7 +22,7 @@ ISOLATE = "chunk"       # every chunk of runs in a forked child of a pristine wo
 CHUNK = 64
 SHRINK_LISTS = ("ops",)
 PROBES = {"C13": ["prior-correlated", "prior-diagonal", "step>=10", "time-indexed", "ukf:k<0", "ukf:k>=0",
-                  "ukf:default-k", "ukf:k-varies", "ekf:nonlinear", "QR-per-call", "QR-at-one-step-only", "ukf:user-msqrt", "twin-filter-retuned", "ukf:nonlinear-psd", "pf:judged", "pf:low-ess-judged", "pf:far-from-origin", "outlier-measurement", "dims>=4", "spread>=1e4"]}
+                  "ukf:default-k", "ukf:k-varies", "ekf:nonlinear", "R-exactly-diagonal", "QR-per-call", "QR-at-one-step-only", "ukf:user-msqrt", "twin-filter-retuned", "ukf:nonlinear-psd", "pf:judged", "pf:low-ess-judged", "pf:far-from-origin", "outlier-measurement", "dims>=4", "spread>=1e4"]}
 TS = float(os.environ.get("PPSIM_TOLSCALE", "1"))
 TOL = 1e-9 * TS
 
@@ -65,7 +65,7 @@ def generate(seed, tier, prop="C13"):
            "kvary": r.random() < 0.3, "outlier": r.choice([0, 0, 0, 15, 40]),
            "pf_f32": r.random() < 0.35, "offset": r.choice([0.0, 0.0, 300.0]),
            "qr_at": r.choice(["ctor", "ctor", "call", "call-overrides", "call-once"]),
-           "msqrt": r.choice(["default", "default", "lower-chol", "jitter-chol"])}
+           "msqrt": r.choice(["default", "default", "lower-chol", "jitter-chol"]), "diagR": r.random() < 0.25}
     if filt == "PF":
         cfg["rs"] = round(r.uniform(-1, 2), 2); cfg["ps"] = round(r.uniform(-2, 1), 2); cfg["spread"] = r.choice([0, 1])
     ro = rng.stream(seed, "ops")
@@ -81,7 +81,7 @@ def simplify(plan):
     c = plan["config"]
     cands = []
     for k, v in (("n", 1), ("n", 2), ("m", 1), ("q", 1), ("q", 2), ("tv", False), ("spread", 0), ("diagP", True),
-                 ("outlier", 0), ("pf_f32", False), ("offset", 0.0), ("kvary", False), ("msqrt", "default"), ("qr_at", "ctor"),
+                 ("outlier", 0), ("pf_f32", False), ("offset", 0.0), ("kvary", False), ("msqrt", "default"), ("qr_at", "ctor"), ("diagR", False),
                  ("qs", 0.0), ("rs", 0.0), ("ps", 0.0), ("kmode", "default"), ("plant", "linear"), ("rho", 0.5)):
         if c.get(k) != v:
             cands.append({**plan, "config": dict(c, **{k: v})})
@@ -140,6 +140,9 @@ def execute(plan, prop, out, tr):
         out.probe("ekf:nonlinear")
     Q = _spd(s, "Q", n, c["qs"], c["spread"]).to(dt); R = _spd(s, "R", q, c["rs"], c["spread"]).to(dt)
     P = _spd(s, "P0", n, c["ps"], c["spread"]).to(dt)
+    if c.get("diagR"):
+        R = torch.diag(torch.diagonal(R)).contiguous()      # exactly zero off-diagonals (independent sensor channels)
+        out.probe("R-exactly-diagonal")
     if c["diagP"]:
         P = torch.diag(torch.diagonal(P))
     if max(abs(c["qs"] - c["rs"]), abs(c["qs"] - c["ps"]), c["spread"]) >= 4:
